@@ -35,6 +35,12 @@ func main() {
 			fmt.Fprintln(os.Stderr, "no engine-W config for", os.Args[2])
 			os.Exit(2)
 		}
+		if len(os.Args) > 4 {
+			cfg.Fixture.Variant = os.Args[4]
+			if os.Args[4] != "" && cfg.VariantPhases != nil {
+				cfg.Phases = cfg.VariantPhases
+			}
+		}
 		mc.WorkerMain(cfg)
 	case "replay":
 		if len(os.Args) < 3 {
